@@ -168,6 +168,33 @@ class GuardExtractor:
                         else:
                             pos = (rel[0] == 'truth') == failing_when_true
                             out.append(Guard(fnq, 'truth' if pos else 'not', rel[1], '', errs, b['ln'], bi, 'branch', fb))
+            # idiom 3: two-way test of the variant of an Option / Result (`if let Some(_) = x`, `matches!(x, None)`, `let .. else`,
+            # `match`) whose sides differ in "can still succeed": the same guard as `x.is_some()` / `x.is_ok()`
+            if t['k'] == 'switch' and t['d']['k'] in ('copy', 'move') and not t['d']['pl']['p']:
+                l = t['d']['pl']['l']
+                for d in self.b.defs.get(l, []):
+                    if d[0] != 'st' or d[1]['k'] != 'discr':
+                        continue
+                    m = re.match(r'^&*(?:mut )?(?:std|core)::(option::Option|result::Result)<', d[1].get('ty', ''))
+                    if not m:
+                        continue
+                    tg = {}
+                    for v, tgt in t['ts']:
+                        tg[str(v)] = tgt
+                    for v in ('0', '1'):
+                        if v not in tg and len(t['ts']) == 1:
+                            tg[v] = t['o']
+                    if '0' not in tg or '1' not in tg:
+                        continue
+                    is_opt = 'Option' in m.group(1)
+                    pos_t, neg_t = (tg['1'], tg['0']) if is_opt else (tg['0'], tg['1'])
+                    sp, sn = self.can_succeed(pos_t), self.can_succeed(neg_t)
+                    if sp == sn:
+                        continue
+                    x = self.o.op_str({'k': 'copy', 'pl': d[1]['pl']})
+                    a = ('Option::is_some(%s)' if is_opt else 'Result::is_ok(%s)') % x
+                    fb = pos_t if not sp else neg_t
+                    out.append(Guard(fnq, 'truth' if not sp else 'not', a, '', self.errs_from(fb), b['ln'], bi, 'variant', fb))
             # idiom 2: cond.then_some(x).ok_or(E)? / cond.then(..).ok_or(E)
             if t['k'] == 'call' and re.search(r'bool::then_some$|bool::then$', _nogen(callee_path(t))):
                 a0 = t['args'][0]
